@@ -47,6 +47,22 @@ ASSUMPTIONS = [
     "matrix must keep one row per row of the frame (checked first) and satisfy the same rank / "
     "column-space facts on those rows; the frames given to common.evaluate_new_data carry the same "
     "columns",
+    "pandas Categorical factors (case key 'columns'): in three cases of ten, one or more of the factors "
+    "the formula uses are pandas Categorical columns instead of plain strings -- unordered with the "
+    "declared categories in unsorted order, unordered with three declared categories that no row uses "
+    "(sorting first / in between / last), both, or ordered with an unsorted declared order and every "
+    "category used.  The levels of a factor are the values that occur: the reference space is built "
+    "from them and every combination of them occurs.  An ORDERED Categorical with a declared category "
+    "that no row uses is not generated: the unchanged library keeps such a category as a level "
+    "(an all-zero column), and the statement does not settle whether it is a level whose combinations "
+    "do not occur (premise false) or no level",
+    "re-evaluation stage (case key 'reeval'; the lower-level public entry point): for a share of the "
+    "cases with a call atom (30 % quick, half thorough) and a few of the others, ONE description "
+    "model_description(formula) is evaluated twice, formulae.matrices.DesignMatrices(model, frame 1, env) "
+    "and then DesignMatrices(model, frame 2, env), on two different row permutations of the "
+    "complete-factorial frame (same length); the second common-effects matrix is judged by the same "
+    "rank / column-space facts against the reference built on frame 2; judged where the fresh design "
+    "satisfies the facts",
     "numeric atoms with several columns (poly(v, 2), bs(v, df=3); case kind 'multi-column-atoms'): four "
     "distinct values per numeric variable ({0, 1, 2, 4} for x, {1, 2, 3, 6} for z, or moved by one half), "
     "complete factorial x full grid; rank of X, of the reference F and of [X | F] by SVD on unit-length "
@@ -258,6 +274,47 @@ def add_unused(df, cats, nums, case):
     return out
 
 
+# ------------------------------------------------------------------------------------------------
+# pandas Categorical columns for some factors (case key "columns": {variable: kind}); the levels a
+# factor has in the data are the values that occur, whatever the dtype declares besides
+# ------------------------------------------------------------------------------------------------
+COLUMN_KINDS = ["cat-unsorted", "cat-unused", "cat-unused", "cat-both", "ordered"]
+
+
+def categorical_columns(df, case):
+    """a copy of `df` in which the factors named by case["columns"] are pandas Categorical columns:
+    'cat-unsorted' = unordered, declared categories not in sorted order; 'cat-unused' = unordered,
+    declared categories sorted, three of them (sorting first / in between / last) used by no row;
+    'cat-both' = unordered, unsorted and with unused categories; 'ordered' = ordered, every declared
+    category used, declared order not the sorted one.  (An ORDERED Categorical with a declared
+    category no row uses is not generated: whether such a category is a 'level used by the formula'
+    -- a combination that does not occur, outside the statement's premise -- or no level at all is
+    not settled by the statement.)"""
+    import pandas as pd
+    spec = case.get("columns")
+    if not spec:
+        return df
+    out = df.copy()
+    for v, kind in spec.items():
+        if v not in out.columns:
+            continue
+        vals = out[v].tolist()
+        obs = sorted(set(vals))
+        rot = obs[1:] + obs[:1]
+        if kind == "cat-unsorted":
+            cats = rot
+        elif kind == "cat-unused":
+            cats = sorted(obs + ["0" + v, v + "0x", v + "9"])
+        elif kind == "cat-both":
+            cats = [v + "9"] + rot + ["0" + v, v + "0x"]
+        elif kind == "ordered":
+            cats = rot
+        else:
+            raise ValueError(kind)
+        out[v] = pd.Categorical(vals, categories=cats, ordered=(kind == "ordered"))
+    return out
+
+
 def full_indicator(df, terms, intercept, grid="int"):
     """reference coding: every term coded with a complete set of level indicators (times its numeric
     factors), plus the constant when the model has an intercept; integer columns (on the half grid
@@ -387,6 +444,8 @@ def observe(case):
     df = get_frame(cats, nums, case["levels"], case.get("shuffle", 0), grid)
     # columns the formula does not mention, some with missing values (never touches the cached frame)
     df = add_unused(df, cats, nums, case)
+    # some factors as pandas Categorical columns (unsorted / unused declared categories, ordered)
+    df = categorical_columns(df, case)
     out = {"rows": len(df)}
     # the family as the resolver built it (before evaluation)
     try:
@@ -450,6 +509,35 @@ def observe(case):
                 out["new"].append({"frame": frame, "err": type(e).__name__})
                 continue
             out["new"].append(dict(rank_facts(Mn, nd, terms, intercept, case, cats, nums), frame=frame))
+    # re-evaluation stage (the lower-level public entry point): ONE model description evaluated twice,
+    # DesignMatrices(model, first frame, env) and then DesignMatrices(model, second frame, env), on two
+    # different row permutations of the complete-factorial frame; the SECOND common-effects matrix is
+    # judged by the same rank / column-space facts on the rows of the second frame
+    if case.get("reeval"):
+        from formulae.environment import Environment
+        from formulae.matrices import DesignMatrices
+        rr = rng_for(case.get("shuffle", 0), "c03", "re-evaluation", case["formula"])
+        p1, p2 = list(range(len(df))), list(range(len(df)))
+        rr.shuffle(p1)
+        for _ in range(20):                      # (a frame of one or two rows has no other order)
+            rr.shuffle(p2)
+            if p2 != p1 and p2 != list(range(len(df))):
+                break
+        try:
+            with contextlib.redirect_stdout(io.StringIO()):
+                model = model_description(case["formula"])
+                keep = [c for c in df.columns if c in model.var_names]
+                env = Environment.capture(0)
+                d1 = df.iloc[p1].reset_index(drop=True)[keep]
+                d2 = df.iloc[p2].reset_index(drop=True)[keep]
+                DesignMatrices(model, d1, env)
+                dm2 = DesignMatrices(model, d2, env)
+            M2 = np.asarray(dm2.common.design_matrix)
+            if M2.ndim != 2:
+                raise ValueError("matrix-not-2d")
+            out["reeval"] = rank_facts(M2, d2, terms, intercept, case, cats, nums)
+        except Exception as e:  # noqa
+            out["reeval"] = {"err": type(e).__name__}
     return out
 
 
@@ -847,6 +935,24 @@ def gen_cases(tier, seed):
     rng_u = rng_for(seed, "c03", "unused-columns")
     for c in cases + dist_cases + wide_cases:
         c["unused"] = rng_u.choice(UNUSED_PATTERNS)
+    # pandas Categorical columns for some factors (own PRNG stream): unordered with unsorted declared
+    # categories, with declared-but-unused categories, both; ordered with every category used
+    rng_c = rng_for(seed, "c03", "categorical-columns")
+    for c in cases + dist_cases + wide_cases:
+        if rng_c.random() < 0.3:
+            vs = sorted({atom_info(a)[2] for t in c["terms"] if t != "1" for a in t
+                         if atom_info(a)[0] == "c"})
+            if vs:
+                c["columns"] = {v: rng_c.choice(COLUMN_KINDS)
+                                for v in rng_c.sample(vs, rng_c.randrange(1, len(vs) + 1))}
+    # re-evaluation stage (one model description, DesignMatrices twice on two row permutations of the
+    # frame; own PRNG stream): a share of the cases with a call atom, a few of the others
+    rng_r = rng_for(seed, "c03", "re-evaluation-sample")
+    share_call, share_plain = {"quick": (0.3, 0.01)}.get(tier, (0.5, 0.02))
+    for c in cases + dist_cases + wide_cases:
+        has_call = any(atom_info(a)[1] for t in c["terms"] if t != "1" for a in t)
+        if not c.get("clean_env") and rng_r.random() < (share_call if has_call else share_plain):
+            c["reeval"] = True
     return cases + dist_cases + wide_cases
 
 
@@ -910,7 +1016,11 @@ def explore(tier, seed, res=None, replay=None):
                 "row-permuted copy, same rank / column-space facts (sample of the cases in quick, all "
                 "in thorough, every distributive case).  Frames carry columns the formula does not "
                 "mention, with missing values scattered / on whole cells / everywhere (case key 'unused'): "
-                "one matrix row per frame row, same rank facts")
+                "one matrix row per frame row, same rank facts.  Some factors are pandas Categorical "
+                "columns (unsorted / unused declared categories, ordered; case key 'columns').  "
+                "Re-evaluation stage (case key 'reeval'): one model description evaluated by "
+                "DesignMatrices on two row permutations of the frame, the second matrix judged by the "
+                "same facts")
     procs = int(os.environ.get("VERIF_PROCS", "6" if tier == "quick" else "12"))
     procs = max(1, min(procs, os.cpu_count() or 1))
 
@@ -1005,6 +1115,12 @@ def explore(tier, seed, res=None, replay=None):
         if c.get("unused"):
             case["unused"] = c["unused"]
             res.count("unused-columns:" + c["unused"])
+        if c.get("columns"):
+            case["columns"] = c["columns"]
+            for kind in sorted(set(c["columns"].values())):
+                res.count("categorical-column:" + kind)
+        if c.get("reeval"):
+            case["reeval"] = True
         if "md_err" in io or io.get("md") != c["terms"]:
             # the resolver did not produce the intended family: not a C03 case (term algebra, C02)
             res.count("skipped:resolver-family-differs")
@@ -1136,6 +1252,45 @@ def explore(tier, seed, res=None, replay=None):
                 res.count("fail:predict:UNCLASSIFIED")
             else:
                 res.count("predict:holds")
+        # ---- re-evaluation stage: the second DesignMatrices(model, frame, env) of one model
+        # description, on another row permutation of the frame, satisfies the same facts.  Judged
+        # where the fresh design satisfies them (a defective design is reported above, once)
+        rv = io.get("reeval")
+        if rv is not None and not train_matrix_ok:
+            res.count("re-evaluation:not-judged (fresh design fails)")
+        elif rv is not None:
+            res.evaluations += 1
+            res.count("re-evaluation:kind:" + c["kind"].split("/")[0])
+            where = ("the second DesignMatrices(model, frame, env) on one model_description(formula), "
+                     "on another row permutation of the frame")
+            why_re = None
+            if "err" in rv:
+                why_re = f"{where}, raised {rv['err']}"
+            elif not rv["integral"]:
+                why_re = f"harness assumption broken: {where}: matrix entries are not integers"
+            elif rv.get("rank_ambiguous"):
+                why_re = (f"{where}: floating-point rank not clear-cut (a singular value between "
+                          f"{RANK_ZERO} and {RANK_TOL} of the largest)")
+            elif rv["nrows"] != io["nrows"]:
+                why_re = f"{where}: number of rows differs from the frame's"
+            elif not (rv["rank"] == rv["ncols"]):
+                why_re = (f"{where}: columns are linearly dependent ({rv['ncols']} columns, rank "
+                          f"{rv['rank']}; dimension of the model space {rv['rank_full']})")
+            elif not (rv["rank_joint"] == rv["rank_full"] == rv["rank"]):
+                why_re = (f"{where}: the column space differs from the full-indicator space of that frame "
+                          f"(rank {rv['rank']}, model space {rv['rank_full']}, joint {rv['rank_joint']})")
+            elif rv["ncols"] != io["ncols"]:
+                why_re = f"{where}: number of columns differs from the fresh design's"
+            if why_re:
+                rfacts = {k: rv.get(k) for k in ("ncols", "rank", "rank_full", "rank_joint", "nrows")}
+                res.failures.append({"case": dict(case, stage="re-evaluation"),
+                                     "impl": dict(i_view, fresh=facts, second=rfacts),
+                                     "expected": {"rank": facts.get("ncols"), "rank_full": facts.get("rank_full"),
+                                                  "rank_joint": facts.get("rank_full")},
+                                     "why": why_re, "finding": None})
+                res.count("fail:re-evaluation:UNCLASSIFIED")
+            else:
+                res.count("re-evaluation:holds")
         # instances of the theorems, re-checked on the implementation's output
         if mo["pipeline_guard"]:
             res.count("inside-guard-of-C03_pipeline_partial")
